@@ -189,6 +189,19 @@ def check_case(case):
         slots = [i for i, s in enumerate(l.samples) if s is not None]
         if slots != sorted(want["payload"]["samples"].keys()):
             vs.append(C.viol("slot-indices-moved", dict(key, ctx=ctx), {"slots": slots}, case))
+    # a LOADED sampler whose effect is removed / replaced before anything has read it
+    if mod.effect is not None:
+        try:
+            for what, new_effect in (("removed", None), ("replaced", rv.Synth(rv.m.Filter()))):
+                l = C.load_bytes(b).module
+                l.effect = new_effect
+                l2 = C.load_bytes(C.save(rv.Synth(l))).module
+                got_t = None if l2.effect is None else l2.effect.module.mtype
+                want_t = None if new_effect is None else "Filter"
+                if got_t != want_t:
+                    vs.append(C.viol("effect-edit-of-loaded-sampler-not-written", dict(key, edit=what), {"expected": want_t, "loaded": got_t}, case))
+        except Exception as e:
+            vs.append(C.viol("second-generation-raises", dict(key, exc=type(e).__name__, edit="effect"), {"error": repr(e)[:200]}, case))
     # second generation: the object has been saved several times by now; IN-PLACE edits of each sub-structure
     # must still reach the next file (a cached serialisation of the effect / a sample / an envelope would not)
     try:
@@ -353,7 +366,10 @@ def object_cases(ctx):
         for v in (0, 1, 4, 5, 6, 7, U32M):
             add("field:" + f, [{"k": "field", "n": f, "v": v}])
             add("pair:" + f + "+map", [{"k": "field", "n": f, "v": v}, split])
-            add("pair:" + f + "+sample", [{"k": "field", "n": f, "v": v}, {"k": "sample", "i": 7, "data": "odd", "fields": {"loop_type": 2}},
+            add("pair:" + f + "+sample", [{"k": "field", "n": f, "v": v},
+                                          {"k": "sample", "i": 7, "data": "odd",
+                                           "fields": {"loop_type": 2, "start_pos": 7, "loop_start": 3, "loop_len": 5, "finetune": -3,
+                                                      "panning": 9, "relative_note": 4, "rate": 8000, "volume": 33, "name": b"nm"}},
                                           {"k": "env", "e": "pitch_envelope", "fields": {"enable": True, "points": [[0, 0], [9, 100]]}}])
     for n, v in (("vibrato_type", 2), ("volume_fadeout", 8192), ("editor_cursor", -1)):
         add("pair:" + n + "+map", [{"k": "field", "n": n, "v": v}, split, {"k": "sample", "i": 127, "data": "frame"}])
